@@ -300,6 +300,8 @@ def run_symbolic(contract, config, max_paths=2000, budget_s=None, log=None):
         prefix = worklist.pop()
         ENG.reset_all()
         poly.reset()
+        from . import imagestub
+        imagestub.reset()
         ENG.prefix = prefix
         ENG.active = True
         ctx = Ctx('sym')
@@ -344,6 +346,21 @@ def run_symbolic(contract, config, max_paths=2000, budget_s=None, log=None):
             pinfo['status'] = 'vacuous'
             paths.append(pinfo)
             continue
+        if status == 'crash':
+            # an unexpected exception of the real code on a feasible path: a
+            # violation iff the real code also raises natively on an input of
+            # this path (otherwise an engine gap, never a verdict)
+            was = ENG.active
+            ENG.active = False
+            try:
+                st_, info_ = run_native(contract, config, model=path_model, tries=1 if path_model else 3)
+            finally:
+                ENG.active = was
+            if st_ == 'crash':
+                results.append(dict(name='returns-normally (no unexpected exception)', path=pinfo['index'], kind='crash',
+                                    status='refuted', backend='native-crash', time_s=0.0, model=info_.get('inputs'),
+                                    detail=(info_.get('error') or '')[-600:]))
+                status = 'ok'
         if status in ('gap', 'crash'):
             gaps.append(dict(kind=status, detail=exc_info, path=pinfo['index'], model=path_model))
         for ob in ctx.obligations:
